@@ -327,7 +327,8 @@ def check(run):
             for f in range(rng2.randrange(1, 4)):       # up to 3 consecutive faults
                 kind = rng2.choice(["close_after_request", "reset_mid_frame", "handler_none", "handler_raise", "close_with_queued",
                                     "half_frame_then_close", "dpr_then_close", "write_error", "write_error",
-                                    "two_broken_at_once", "handshake_stalled", "twin_ids_lost"])
+                                    "two_broken_at_once", "handshake_stalled", "twin_ids_lost", "gone_with_unsent_output",
+                                    "lost_then_retransmitted"])
                 hist.append(kind)
                 hbh += 1
                 if kind == "close_after_request":
@@ -380,6 +381,40 @@ def check(run):
                                       what="a peer whose connection broke together with another one is not served when it returns")
                     t.remotes[c1b].close()
                     t.sim.run()
+                elif kind == "gone_with_unsent_output":
+                    # the socket takes nothing while an answer is waiting; then, in one and the same instant, it becomes
+                    # writable again and the peer hangs up: readable (EOF) and writable in the same round of the I/O loop
+                    t.remotes[c0].stall_writes(True)
+                    t.request(c0, hbh, "answer")
+                    t.remotes[c0].stall_writes(False)
+                    t.remotes[c0].close()
+                    t.sim.run()
+                    t.sim.advance(1)
+                elif kind == "lost_then_retransmitted":
+                    # the connection is lost while the handler works on a request; the peer comes back and sends the same
+                    # request again, T flag set: it was never answered, so it is served like any other
+                    t.outcome[hbh] = "slow:answer"
+                    t.release[hbh] = t.sim.vmodules["threading"].Event()
+                    t.remotes[c0].feed(NS.build_message(dict(kind="req", hbh=hbh, e2e=hbh, host=t.host[c0])))
+                    t.sim.run()
+                    t.remotes[c0].close()
+                    t.sim.run()
+                    t.release[hbh].set()
+                    t.sim.run()
+                    t.sim.advance(1)
+                    c0, _ = t.connect("cli0.example.net")
+                    hb2 = hbh + 7000
+                    t.outcome[hb2] = "answer"
+                    t.obs()
+                    t.remotes[c0].feed(NS.build_message(dict(kind="req", hbh=hb2, e2e=hbh, host=t.host[c0], t=True)))
+                    t.sim.run()
+                    t.sim.advance(1)
+                    o2 = t.obs()
+                    if (hb2, 2001) not in o2["sends"].get(c0, []):
+                        run.violation("served-after-faults", {"scenario": f"probe seed {seed}", "limit": limit, "faults": list(hist)},
+                                      o2["sends"].get(c0, []), [(hb2, 2001)],
+                                      what="a request that was never answered (connection lost while it was processed) is not served when it "
+                                           "is retransmitted after the reconnect")
                 elif kind == "twin_ids_lost":
                     # two peers each have a request in the hands of a (slow) handler, with the SAME hop-by-hop and
                     # end-to-end identifiers; both connections are lost while the handlers run
@@ -436,11 +471,14 @@ def check(run):
                     t.remotes[c0].close()
                     t.sim.run()
                 if t.remotes[c0].closed_by_node or kind in ("close_after_request", "reset_mid_frame", "close_with_queued",
-                                                            "half_frame_then_close", "dpr_then_close", "two_broken_at_once", "twin_ids_lost"):
+                                                            "half_frame_then_close", "dpr_then_close", "two_broken_at_once", "twin_ids_lost", "gone_with_unsent_output"):
                     t.sim.advance(1)
                     c0, _ = t.connect("cli0.example.net")
-            t.sim.advance(6)
+            # (sometimes much later: the per-peer statistics windows have long expired by then)
+            t.sim.advance(6 if seed % 3 else 1207)
             # the peer that suffered the faults is served again on its new connection
+            if t.remotes[c0].closed_by_node:
+                c0, _ = t.connect("cli0.example.net")       # (the watchdog has closed it in the meantime: it comes back)
             if not t.remotes[c0].closed_by_node:
                 hbh += 1
                 t.obs()
